@@ -55,6 +55,12 @@ def first_diff(a: Dict[str, Any], b: Dict[str, Any]) -> Optional[Tuple[str, str]
                 for i, (x, y) in enumerate(zip(a[f], b[f])):
                     if x != y:
                         return f"imem:{i:02X}", f"internal memory {i:#04x}: {x:#04x} vs restored {y:#04x}"
+            if f == "mem":
+                for (base, _n), x, y in zip(M.OBS_MEM, a[f], b[f]):
+                    if x != y:
+                        k = next(i for i in range(len(x)) if x[i] != y[i])
+                        name = "stack" if base == M.OBS_MEM[0][0] else f"{base + k:05X}"
+                        return f"mem:{name}", f"memory byte {base + k:#x}: {x[k]:#04x} vs restored {y[k]:#04x}"
             return f, f"{f}: {str(a[f])[:60]} vs restored {str(b[f])[:60]}"
     return None
 
@@ -139,14 +145,15 @@ def check_point(impl, h, cfg, cname, hist, K, vb: VB) -> int:
         if pre_a is not None:
             d0 = first_diff(view(pre_a, pre_a["irq_total"]), view(b[len(hist) + 1], b[len(hist) + 1]["irq_total"]))
             if d0:
-                vb.add(f"C16/{impl}/state-after-load/{d0[0].split(':')[0]}" + (f"/{d0[0].split(':')[1]}" if ':' in d0[0] and d0[0].startswith('imem') else "") + f"/{ctxs}",
+                vb.add(f"C16/{impl}/state-after-load/{d0[0].split(':')[0]}" + (f"/{d0[0].split(':')[1]}" if ':' in d0[0] and d0[0].startswith('imem') else "") +
+                       (f":{d0[0].split(':')[1]}" if d0[0].startswith('mem:') else "") + f"/{ctxs}",
                        f"{impl} {cname}: immediately after load {d0[1]} (snapshot taken after {hist})",
                        {"impl": impl, "config": cname, "history": [list(e) for e in hist], "cont": []})
         for i in range(len(cont)):
             oa, ob = a[len(hist) + i], b[len(hist) + 2 + i]
             d = first_diff(view(oa, base_a), view(ob, base_b))
             if d:
-                fld = d[0].split(":")[0] if not d[0].startswith("imem") else d[0].replace(":", "/")
+                fld = d[0] if d[0].startswith("mem:") else (d[0].split(":")[0] if not d[0].startswith("imem") else d[0].replace(":", "/"))
                 vb.add(f"C16/{impl}/future-differs/{fld}/{ctxs}",
                        f"{impl} {cname}: snapshot after {hist}, continuation {cont[: i + 1]}: {d[1]}",
                        {"impl": impl, "config": cname, "history": [list(e) for e in hist], "cont": [list(e) for e in cont]})
@@ -243,7 +250,7 @@ def _d(x, y) -> str:
 
 
 def combos(impl, thorough, seed):
-    progs = ["nop", "halt", "off", "wait", "imr_toggle", "ir"]
+    progs = ["nop", "halt", "off", "wait", "imr_toggle", "ir", "lcd", "card", "clr_halt", "xram"]
     if impl == "rust":
         hands = ["reti", "clr", "nest"]
         imrs = [0x8F, 0x0F] if not thorough else [0x00, 0x84, 0x8F, 0x0F]
